@@ -1,5 +1,6 @@
+from xeng import progs, progs2, progs3
 from . import _common
 
 
 def run(out):
-    _common.run(out, 'C16', s_props=['C16'])
+    _common.run(out, 'C16', x=[dict(fn=progs.c01_corpus, name='c16', compile_violation=True, compile_only=True, filter=lambda p: any(k in p.desc for k in ('tup', 'n1', 'n2', "'s'", 'refpat', 'wild', 'raw', 'fname', 'mut_u32', 'atpat')))], s_props=['C16'])
